@@ -149,7 +149,10 @@ func judge(o *vrt.Obs, w *b2fx.PeerWorld, run *b2fx.PeerRun) {
 		case '+':
 			wantSent = append(wantSent, m.MID)
 			got, ok := res.Received[m.MID]
-			if !ok || !bytes.Equal(got, w.Truth[m.MID]) {
+			if a[0].Offset > 0 {
+				// taken from an offset: the peer judged framing, offset field, checksum and length of the part it asked for
+				o.Count("lib_messages_taken_from_an_offset", 1)
+			} else if !ok || !bytes.Equal(got, w.Truth[m.MID]) {
 				o.Violate("outcome-not-received", "%s: the peer did not receive the queued message", desc)
 			}
 			if len(ss) != 1 || ss[0].Flag || len(sd) != 0 || pending[m.MID] {
